@@ -72,6 +72,55 @@ theorem param_change_authorised (s s' : State) (mode : Mode) (t : Tx) (ok : Bool
       rw [← hr.1] at hg
       exact absurd (gov_send_getD _ _ _ _) hg
 
+/-- The same, in terms of the whole governance state (all parameters, the ACL, the DAO owner): if a transaction
+changes any of it, it was a delivered, accepted change-param message sent by the owner the ACL names for that key. -/
+theorem gov_change_authorised (s s' : State) (mode : Mode) (t : Tx) (ok : Bool)
+    (hr : runTx s mode t = (s', ok)) (hg : gov s' ≠ gov s) :
+    mode = .deliver ∧ ok = true ∧ anteOK s t false = true ∧
+    ∃ src key val, t.msg = .changeParam src key val ∧ s.acl.lookup key = some src := by
+  unfold runTx at hr
+  split at hr; · simp at hr; rw [hr.1] at hg; exact absurd rfl hg
+  split at hr; · simp at hr; rw [hr.1] at hg; exact absurd rfl hg
+  split at hr; · simp at hr; rw [hr.1] at hg; exact absurd rfl hg
+  rename_i _ _ ha
+  simp only at hr
+  cases mode with
+  | check => simp at hr; rw [hr.1] at hg; exact absurd rfl hg
+  | simulate => simp at hr; rw [hr.1] at hg; exact absurd rfl hg
+  | deliver =>
+    have hmd : (Mode.deliver == Mode.simulate) = false := by decide
+    have ha' : anteOK s t false = true := by rw [hmd] at ha; simpa using ha
+    simp only at hr
+    split at hr
+    · rename_i s1 h1
+      simp at hr
+      obtain ⟨rfl, rfl⟩ := hr
+      refine ⟨rfl, rfl, ha', ?_⟩
+      cases hm : t.msg with
+      | changeParam src key val =>
+        refine ⟨src, key, val, rfl, ?_⟩
+        rw [hm] at h1
+        simp only [handle] at h1
+        split at h1
+        · simp at h1
+        · rename_i owner ho
+          split at h1
+          · simp at h1
+          · rename_i hne
+            have : owner = src := by simpa using hne
+            subst this
+            have : gov ((send s (t.msg.signer s) s.feeAcc t.feeEff).getD s) = gov s := gov_send_getD _ _ _ _
+            simp only [gov, Prod.mk.injEq] at this
+            rw [← this.2.1]; rw [hm]; exact ho
+      | _ =>
+        exfalso
+        apply hg
+        rw [gov_handle h1 (by rw [hm]; intro _ _ _ h; cases h), gov_send_getD]
+    · simp at hr
+      rw [← hr.1] at hg
+      exact absurd (gov_send_getD _ _ _ _) hg
+
+
 /-- Such a change alters the parameter named by the key alone. -/
 theorem change_only_that_key (s : State) (key val : String) :
     let s' := applyParam s key val
@@ -110,6 +159,38 @@ theorem block_ops_keep_gov (s : State) (op : Op) (r : State × List (Addr × Int
   | burn a raw => simp [step] at hs; subst hs; rfl
   | tx m t => exact absurd rfl (hop m t)
 
+
+/-- For every history: the governance state at the end differs from the one at the start only if the history
+contains a delivered change-param transaction; block-level operations, CheckTx / simulate traffic and every other
+transaction leave all parameters, the ACL and the DAO owner as they were. -/
+theorem gov_run (ops : List Op) (s s' : State) (hr : run s ops = some s')
+    (hno : ∀ op ∈ ops, ∀ t src key val, op = .tx .deliver t → t.msg ≠ .changeParam src key val) :
+    govOf s' = govOf s := by
+  induction ops generalizing s with
+  | nil => simp [run] at hr; subst hr; rfl
+  | cons op rest ih =>
+    simp only [run] at hr
+    cases hstep : step s op with
+    | none => simp [hstep] at hr
+    | some r =>
+      rw [hstep] at hr
+      simp only [Option.bind_some] at hr
+      have hrest := ih r.1 hr (fun o ho => hno o (List.mem_cons_of_mem _ ho))
+      rw [hrest]
+      by_cases hop : ∃ m t, op = .tx m t
+      · obtain ⟨m, t, rfl⟩ := hop
+        simp only [step, Option.some.injEq] at hstep
+        have hgr : gov r.1 = gov (runTx s m t).1 := by
+          rw [← hstep]; split <;> rfl
+        rw [govOf_eq_gov, govOf_eq_gov, hgr]
+        by_cases hg : gov (runTx s m t).1 = gov s
+        · exact hg
+        · exfalso
+          obtain ⟨hm, _, _, src, key, val, hmsg, _⟩ :=
+            gov_change_authorised s (runTx s m t).1 m t (runTx s m t).2 rfl hg
+          subst hm
+          exact hno _ List.mem_cons_self t src key val rfl hmsg
+      · exact block_ops_keep_gov s op r (fun m t h => hop ⟨m, t, h⟩) hstep
 
 /-- DAO funds leave the DAO account only by a delivered, accepted DAO message from the DAO owner,
 by exactly the stated amount, which does not exceed the DAO balance; a transfer credits the
